@@ -246,9 +246,16 @@ func (d *Daemon) HTTPRequest(port, cert, route, prefix string) (int, string) {
 		CheckRedirect: func(*http.Request, []*http.Request) error { return http.ErrUseLastResponse }}
 	var resp *http.Response
 	var err error
-	if route == "pub" {
+	switch route {
+	case "pub":
 		resp, err = cl.Post(base+"/pub?topic="+prefix+"_t1", "application/octet-stream", bytes.NewReader([]byte("h-"+prefix)))
-	} else {
+	case "pprof": // a route registered as a plain net/http handler
+		resp, err = cl.Get(base + "/debug/pprof/cmdline")
+	case "unknown": // no route matches: the router's NotFound handler
+		resp, err = cl.Get(base + "/no/such/" + prefix)
+	case "badmethod": // the router's MethodNotAllowed handler
+		resp, err = cl.Get(base + "/pub?topic=" + prefix + "_t1")
+	default:
 		resp, err = cl.Get(base + "/ping")
 	}
 	if err != nil {
